@@ -330,6 +330,22 @@ where
     ensure!(rd.shape_count().ok() == Some(accepted.len()), "counts-differ", "Reader::from_path: shape_count {:?}, {} pairs", rd.shape_count().ok(), accepted.len());
     let pairs = rd.read().map_err(|e| Fail::new("read-error", err_str(&e)))?;
     check_pairs("Reader::from_path(..).read()", &pairs, &accepted)?;
+    // the usual way to copy a shapefile: typed pairs read by path, the schema taken over with into_table_info(),
+    // the pairs written again through Writer::from_path_with_info — shape i still comes with row i
+    if !accepted.is_empty() {
+        let mut rd = Reader::from_path(&p).map_err(|e| Fail::new("open-error", err_str(&e)))?;
+        let typed = rd.read_as::<K, dbase::Record>().map_err(|e| Fail::new("read-error", format!("Reader::read_as: {}", err_str(&e))))?;
+        let info = rd.into_table_info();
+        let p2 = crate::common::scratch_shp("c08-copy", c.calls.len() + c.geoms.len() + 1);
+        {
+            let mut w = Writer::from_path_with_info(&p2, info).map_err(|e| Fail::new("write-error", format!("copy: {}", err_str(&e))))?;
+            for (i, (s, r)) in typed.iter().enumerate() {
+                w.write_shape_and_record(s, r).map_err(|e| Fail::new("write-error", format!("copy: pair {}: {}", i, err_str(&e))))?;
+            }
+        }
+        let again = shapefile::read(&p2).map_err(|e| Fail::new("read-error", format!("copy: shapefile::read: {}", err_str(&e))))?;
+        check_pairs("copy through read_as + into_table_info + from_path_with_info", &again, &accepted)?;
+    }
     Ok(true)
 }
 
